@@ -8,7 +8,7 @@ Cases == JsonDeserialize(IOEnv.OBS_FILE)
 OInit == i \in 1..Len(Cases)
 ONext == UNCHANGED i
 C == Cases[i]
-Cfg == [n |-> C.cfg.n, order |-> C.cfg.order, res |-> C.cfg.res, own |-> C.cfg.own, fail |-> C.cfg.fail]
+Cfg == [n |-> C.cfg.n, order |-> C.cfg.order, res |-> C.cfg.res, own |-> C.cfg.own, fail |-> C.cfg.fail, fkind |-> C.cfg.fkind, oos |-> C.cfg.oos]
 E == El(Cfg)
 S == C.seq
 C14_NoError == S.err = ""
@@ -17,7 +17,7 @@ C14_Min == S.err = "" => \A e \in E : S.min[e + 1] = TrueMin(Cfg, e)
 C14_Cause == S.err = "" => \A e \in E : TrueMax(Cfg, e) # NaNv =>
                  (S.cause_is_line[e + 1] /\ S.cause[e + 1] \in E /\ CauseOK(Cfg, e, S.cause[e + 1]))
 C14_CausesOverloading == S.err = "" => \A c \in E : S.overload[c + 1] = Overloads(Cfg, c)
-C14_N0 == S.err = "" => \A e \in E : S.n0[e + 1] = N0Val(e)
+C14_N0 == S.err = "" => \A e \in E : S.n0[e + 1] = (IF e = Cfg.oos THEN NaNv ELSE N0Val(e))
 C14_BusExtremes == S.err = "" => \A b \in 0..1 : S.busmax[b + 1] = BusMax(Cfg, b) /\ S.busmin[b + 1] = BusMin(Cfg, b)
 C14_WrittenToNet == S.err = "" => S.written_max = S.max /\ S.written_min = S.min
 C14_InServiceRestored == S.restored /\ S.seen_ok
